@@ -48,6 +48,11 @@ pub struct Case {
     /// panic (a guard object owns it), as happens when a service's main function panics
     #[serde(default)]
     pub unwinding: bool,
+    /// detach path only: another thread keeps calling try_append on the global while the attach
+    /// handle is being dropped (its entries are not judged here - C17 does that - but the detach
+    /// must still shut the queue down)
+    #[serde(default)]
+    pub racing_appender: bool,
 }
 
 metrique_writer::sink::global_entry_sink! { C05Global }
@@ -146,6 +151,26 @@ pub fn check(case: &Case) -> CaseResult {
                     gate.open();
                 })
             };
+            let stop_racer = Arc::new(std::sync::atomic::AtomicBool::new(false));
+            let racer = (case.end == End::GlobalDetach && case.racing_appender).then(|| {
+                let stop = stop_racer.clone();
+                std::thread::spawn(move || {
+                    let mut n = 0u32;
+                    while !stop.load(std::sync::atomic::Ordering::Relaxed) {
+                        if n < 3000 {
+                            let _ = C05Global::try_append(TestE(Id { p: 1, s: n }));
+                            n += 1;
+                        } else {
+                            let _ = C05Global::try_sink();
+                        }
+                    }
+                })
+            });
+            if racer.is_some() {
+                classes.push("detach-with-racing-appender");
+                // let the racer get going
+                std::thread::sleep(Duration::from_micros(100));
+            }
             log.push(Ev::HandleDropStart);
             if case.unwinding {
                 if case.end == End::GlobalDetach {
@@ -160,7 +185,18 @@ pub fn check(case: &Case) -> CaseResult {
                 no_panic("queue-shutdown", || drop(handle.take()))?;
             }
             log.push(Ev::HandleDropEnd);
+            stop_racer.store(true, std::sync::atomic::Ordering::Relaxed);
+            if let Some(r) = racer {
+                let _ = r.join();
+            }
             let _ = opener.join();
+            if case.end == End::GlobalDetach {
+                vensure!(
+                    C05Global::try_sink().is_none(),
+                    "shutdown:global-still-attached",
+                    "the attach handle was dropped but the global sink is still attached"
+                );
+            }
             // appends after the drop returned are discarded silently
             let after_start = seq;
             if case.end == End::GlobalDetach {
@@ -210,7 +246,7 @@ pub fn check(case: &Case) -> CaseResult {
             for e in &evs2 {
                 if let Ev::Next(id, _) = e {
                     vensure!(
-                        id.s < after_start,
+                        id.p != 0 || id.s < after_start,
                         "shutdown:entry-written-after-shutdown",
                         "entry {id:?} appended after the shutdown returned was written"
                     );
@@ -310,7 +346,7 @@ pub fn check(case: &Case) -> CaseResult {
     Ok(classes)
 }
 
-pub const RULE: &str = "histories of Append(n) / Clone / DropClone / FlushReq / Grant(k) on a typed or boxed queue whose writer is stalled behind a fuel gate, ended by (a) dropping the join handle while entries are still queued (a helper opens the gate after the drop began; in 30% of these cases the drop is performed by a guard object while its thread unwinds from a panic), (b) forgetting the join handle and dropping every queue handle - also with the last appends and the drop of the last handle placed while the writer thread is held inside one of its periodic stream flushes (harness-owned flush callback), (c) the same queue attached to a harness-declared global_entry_sink! and detached by dropping the AttachHandle; then appends after the end. Oracle over the event log: when the drop returns every entry appended before it began has reached the stream, the stream was flushed after the last of them and dropped; later appends never appear (try_append hands the entry back for a detached global); pending flush futures complete. Forget path, decided by counting: after the last queue handle is dropped the stream must be drained, flushed and dropped before 60 further periodic stream flushes are observed (else 'runs forever'); 10 s without either is inconclusive. Non-trivial = shutdown begins with entries still queued, or the forget path";
+pub const RULE: &str = "histories of Append(n) / Clone / DropClone / FlushReq / Grant(k) on a typed or boxed queue whose writer is stalled behind a fuel gate, ended by (a) dropping the join handle while entries are still queued (a helper opens the gate after the drop began; in 30% of these cases the drop is performed by a guard object while its thread unwinds from a panic), (b) forgetting the join handle and dropping every queue handle - also with the last appends and the drop of the last handle placed while the writer thread is held inside one of its periodic stream flushes (harness-owned flush callback), (c) the same queue attached to a harness-declared global_entry_sink! and detached by dropping the AttachHandle, in half of these cases while another thread keeps calling try_append on the global; then appends after the end. Oracle over the event log: when the drop returns every entry appended before it began has reached the stream, the stream was flushed after the last of them and dropped; later appends never appear (try_append hands the entry back for a detached global); pending flush futures complete. Forget path, decided by counting: after the last queue handle is dropped the stream must be drained, flushed and dropped before 60 further periodic stream flushes are observed (else 'runs forever'); 10 s without either is inconclusive. Non-trivial = shutdown begins with entries still queued, or the forget path";
 
 pub fn run(ctx: &mut Ctx) {
     ctx.assume("termination of the forgotten queue is decided by counting the writer's periodic stream flushes (flush interval 1 ms / 50 us), never by a wall-clock deadline");
@@ -319,7 +355,7 @@ pub fn run(ctx: &mut Ctx) {
         SubCfg::new("c05-shutdown", RULE, if q { 500 } else { 12_000 })
             .threads(ctx.tier.pick(4, 8))
             .shrink_iters(60)
-            .mandatory(&["entries-queued-at-shutdown", "forget-path", "drop-handle", "global-detach", "append-after-shutdown", "last-handle-dropped-during-periodic-flush", "handle-dropped-while-unwinding"]),
+            .mandatory(&["entries-queued-at-shutdown", "forget-path", "drop-handle", "global-detach", "append-after-shutdown", "last-handle-dropped-during-periodic-flush", "handle-dropped-while-unwinding", "detach-with-racing-appender"]),
         || {
             (
                 any::<bool>(),
@@ -339,8 +375,9 @@ pub fn run(ctx: &mut Ctx) {
                 any::<bool>(),
                 any::<bool>(),
                 prop::bool::weighted(0.3),
+                prop::bool::weighted(0.5),
             )
-                .prop_map(|(boxed, ops, end, after, open_delay, flush_ms, during_flush, unwinding)| Case {
+                .prop_map(|(boxed, ops, end, after, open_delay, flush_ms, during_flush, unwinding, racing_appender)| Case {
                     boxed,
                     ops,
                     end,
@@ -349,6 +386,7 @@ pub fn run(ctx: &mut Ctx) {
                     flush_ms,
                     during_flush,
                     unwinding,
+                    racing_appender,
                 })
         },
         check,
